@@ -52,7 +52,10 @@ def run(r):
     quick = r.tier == "quick"
     try:
         files = [f for f in IG.corpus_files() if os.path.getsize(f) < 6000]
-        mbytes = [list(b) for b in (b"i\x05\x00\x00\x00", b"(\x02\x00\x00\x00i\x01\x00\x00\x00N", b"s\x03\x00\x00\x00abc", b"[\x01\x00\x00\x00T", b"{i\x01\x00\x00\x00N0", b"g\x00\x00\x00\x00\x00\x00\xf8?")]
+        mbytes = [list(b) for b in (b"i\x05\x00\x00\x00", b"(\x02\x00\x00\x00i\x01\x00\x00\x00N", b"s\x03\x00\x00\x00abc", b"[\x01\x00\x00\x00T", b"{i\x01\x00\x00\x00N0", b"g\x00\x00\x00\x00\x00\x00\xf8?",
+                                       # Python 2 style streams: interned strings ('t') and references to them ('R')
+                                       b"(\x03\x00\x00\x00t\x01\x00\x00\x00xt\x01\x00\x00\x00yR\x00\x00\x00\x00", b"(\x02\x00\x00\x00t\x05\x00\x00\x00alphaR\x00\x00\x00\x00",
+                                       b"(\x04\x00\x00\x00t\x01\x00\x00\x00at\x01\x00\x00\x00bR\x01\x00\x00\x00R\x00\x00\x00\x00", b"[\x02\x00\x00\x00t\x04\x00\x00\x00betaR\x00\x00\x00\x00")]
         seqs = []
         for i in range(160 if quick else 1600):
             n = rnd.choice([1, 2, 3, 5, 8, 13, 25, 40] if not quick else [1, 3, 5, 8, 15, 25])
